@@ -1164,8 +1164,8 @@ fn verif_chunks_map_collect<T, F: FnMut(&[u8]) -> T>(s: &[u8], n: usize, f: F) -
 Header::from_reader(reader)
 //@@ replace /for id in difat\.into_iter\(\)\.filter\(\|id\| ([^)]*)\)/ vstd cannot reason about Filter over a closure created in a generic fn; the iterator is materialised by the verified wrapper (same items, same order; predicate pure); closure text verbatim, annotated
 for id in it: verif_filter_collect(difat, |id: &u32| -> (b: bool) ensures b == (\g<1>) { \g<1> })
-//@@ replace /dirs\s*\.chunks\(128\)\s*\.map\(\|c\| ([^;]*)\)\s*\.collect::<Vec<_>>\(\)/ vstd cannot reason about Map over a closure created in a generic fn; expression moved into the verified wrapper; closure text verbatim, annotated with the contract of Directory::from_slice
-verif_chunks_map_collect(&dirs, 128, |c: &[u8]| -> (d: Directory) requires c@.len() >= 128 ensures d.ent() == dir_ent(c@.subrange(0, 128), h.sector_size as int) { \g<1> })
+//@@ replace /dirs\s*\.chunks\(([^)]*)\)\s*\.map\(\|c\| ([^;]*)\)\s*\.collect::<Vec<_>>\(\)/ vstd cannot reason about Map over a closure created in a generic fn; expression moved into the verified wrapper; closure text verbatim, annotated with the contract of Directory::from_slice
+verif_chunks_map_collect(&dirs, \g<1>, |c: &[u8]| -> (d: Directory) requires c@.len() >= 128 ensures d.ent() == dir_ent(c@.subrange(0, 128), h.sector_size as int) { \g<2> })
 //@@ end
 //@@ endimpl
 
